@@ -39,9 +39,20 @@ LEVEL_TEXT = ("Lean theorems over the model of compute_affinity (everything GEOS
               "all 81 ordered type pairs, for every rounding, every GEOS parameter, all coordinates and buffers - and proved "
               "equal to the model; so are both formulas and the closed-form buffers; the type tables are re-extracted; all 81 "
               "type pairs run differentially (bit for bit against the binary64 evaluation of the model off the grid); range / "
-              "symmetry / self / disjoint / shift are judged on every real output.")
+              "symmetry / self / disjoint / shift are judged on every real output.  The buffered time extent of a point / "
+              "line type is pinned from its coordinates, not from the library's buffer: the time-only affinity lies in an "
+              "explicit band around the IoU of the ideal extents [max(s - tb, 0), e + tb] whenever the reported extent is "
+              "within [rho, kappa] buffers of the raw bounds, the band is that IoU itself for rho = kappa = 1, and the "
+              "model of buffer_shapely_geometry (C11) under its GEOS contracts meets the extent condition; the band is "
+              "evaluated on every time-branch pair with a buffered side.")
 LEVEL_NOTE = ("Unmodelled: GEOS overlay, buffer and area in binary64 (parameters of the model; `Sane` and `BoundsExact` checked "
-              "exactly and `Sound` up to 2^-40 on every measured value).  That binary64 round-to-nearest obeys `IsRounding` "
+              "exactly and `Sound` up to 2^-40 on every measured value).  GEOS's buffer is polygonal: the band of the time-only "
+              "affinity uses rho = 1 for points (circle vertices on the axes) and rho = 0.9951 for line ends (round caps, "
+              "known finding C11-round-caps), kappa = 1 except kappa = 5.2 (mitre limit) for lines not monotone in time; "
+              "the hypotheses `CoversDisc rho` / `ReachAtMost kappa` of the pipeline theorem are monitored at the level of "
+              "bounds and area of every buffered shape (both branches), not proved of GEOS.  In the area branch the value "
+              "for a buffered point / line type is not pinned in closed form: there the buffered shape (bounds, area) and "
+              "the converted polygons (`AreaExact`: shoelace area) are checked as contracts.  That binary64 round-to-nearest obeys `IsRounding` "
               "(monotone, exact on 0 and 1, idempotent, exact doubling) is assumed, not proved; the driver's executable "
               "`rnd64` is compared with Python's correctly rounded float(Fraction) on every run.  "
               "Known findings: argument-order dependence and self-affinity just below 1, both <= 2^-40, in the area branch "
@@ -51,11 +62,18 @@ TECHNIQUE = ("Lean 4 proof over model with GEOS as a parameter under explicit co
              "symbolic-trace equality (whole function, all 81 type pairs, rounding-aware) and table obligations regenerated "
              "from source; differential correspondence over all 81 type pairs, bit-exact against a binary64 evaluation of "
              "the model; property monitor on real outputs")
-RULE = ("all 81 ordered type pairs x buffers on dyadic grids and with arbitrary binary64 coordinates, self pairs (aliased and "
+RULE = ("all 81 ordered type pairs x buffers on dyadic grids (time buffers from 1/8 s to 4 s) and with arbitrary binary64 "
+        "coordinates, self pairs (aliased and "
         "not), touching / nested / zero-extent / tiny-overlap / full-band placements, exhaustive small interval / box grids, "
-        "shifted pairs; non-trivial = the implementation returned a number and at least one of the two orders is positive or "
+        "shifted pairs (time buffers up to 4 s, events up to 1000 s, offsets up to 1000 s); non-trivial = the implementation returned a number and at least one of the two orders is positive or "
         "the pair is disjoint in time; distinct = distinct (operation, input)")
-TRUSTED = ["shapely/GEOS area, intersection, buffer, bounds (measured per case; contracts Sane and BoundsExact exactly, Sound up to 2^-40)",
+TRUSTED = ["shapely/GEOS area, intersection, buffer, bounds (measured per case; contracts Sane and BoundsExact exactly, Sound up to 2^-40; "
+           "the buffered shapes' time / frequency extents and areas against the raw coordinates within [rho, kappa] buffers; "
+           "AreaExact: area of converted polygons = shoelace area within 2^-40)",
+           "GEOS's buffer of a scaled point / line geometry covers the disc of radius rho around every vertex and stays within "
+           "kappa of the input (rho = 1 points, 0.9951 lines; kappa = 1, or 5.2 where a line is not monotone along the axis): "
+           "hypotheses of C06_pipeline_extent_within, monitored on bounds and area, not proved",
+           "the rational enclosure 3.1415 < pi < 3.1416 used by the area contract of buffered shapes",
            "symbolic tracer stubs: geometries with .type/.coordinates and the Lean term they stand for, shapely stand-ins whose "
            "area / intersection area / bounds are atoms `G.area x`, `G.inter x y`, `G.st x`, `G.en x` of the model's parameter "
            "(bounds of a TimeStamp / TimeInterval / BoundingBox: the coordinates, contract BoundsExact), data.TimeInterval "
@@ -67,6 +85,17 @@ ASSUMPTIONS = ["geometries are valid and polygonal ones non-self-intersecting (g
                "binary64 round-to-nearest-even obeys `IsRounding` on the magnitudes that occur (no overflow)",
                "GEOS satisfies `Sound` exactly only in exact arithmetic; in binary64 it does up to a relative 2^-40 (monitored)"]
 NOT_COMPARED = ["negative buffers (outside the property's quantifier; modelled and tied symbolically, not run differentially)",
+                "the extent band / buffered-shape contracts are not evaluated in the regimes of the C11 known findings: a zero time "
+                "or frequency buffer (C11-zero-buffer-factor; outside the quantifier for point / line types), a line with an exact "
+                "reversal (C11-line-reversal; not simple), a buffer >= 1e4 times the extent of a line part on that axis "
+                "(C11-huge-buffer-ratio), scaled coordinates >= 1e9; the tallies `time band: not evaluated: ...` count them",
+                "lines that are not monotone in time: the upper side of the buffered extent is only bounded by the mitre limit "
+                "(kappa = 5.2 buffers), so the band of the time-only affinity is wide there",
+                "the area-branch value for a buffered point / line type against a polygonal shape has no closed form: only the "
+                "buffered shape's bounds and area, `Sane` / `Sound`, and the independent clauses (range, symmetry, self, outer "
+                "extents disjoint in time -> 0, shift) are judged",
+                "shift invariance of pairs that go through GEOS is compared with a tolerance of 2^-37 relative to the magnitude of "
+                "the time coordinates GEOS computes with (its overlay noise at sharp mitre joins grows with the coordinates)",
                 "GEOS pairs on the grid are compared with tolerance 2^-40; off the grid bit for bit given the measured GEOS values",
                 "error messages"]
 
@@ -398,6 +427,14 @@ def _measure(inp):
             mb = _model("bounds", {"g": gj})
             bx.append((gj, ob, "val" in mb and frac(mb["val"][0]) == frac(ob["st"]) and frac(mb["val"][2]) == frac(ob["en"])))
     info["bounds_exact"] = bx
+    # contract AreaExact on the same sides: shapely's area of the converted (multi)polygon / box = shoelace area of the
+    # coordinates (geometry_to_shapely is code under test too; within 2^-40)
+    ax = []
+    for gj, kd, ob in zip((inp["g1"], inp["g2"]), kinds, obs):
+        if ob is not None and kd in ("plain", "box") and gj["type"] in ("Polygon", "MultiPolygon", "BoundingBox"):
+            ma = _model("area", {"g": gj})
+            ax.append((gj, ob, "val" in ma and tol_eq(frac(ma["val"]), float(frac(ob["area"])))))
+    info["area_exact"] = ax
     if inter is not None:
         args["inter"] = inter
         info["measured_pair"] = True
@@ -524,6 +561,9 @@ def _holds_pair(ctx, inp, io):
         ctx.tally("shapely could not measure the prepared geometry although compute_affinity returned")
     for gj, ob, ok in info.get("bounds_exact", ()):
         ctx.contract("BoundsExact: shapely bounds = min / max of the coordinates (exact)", ok, inp, {"g": gj, "obs": ob})
+    for gj, ob, ok in info.get("area_exact", ()):
+        ctx.contract("AreaExact: shapely area of the converted geometry = shoelace area of the coordinates (within 2^-40)",
+                     ok, inp, {"g": gj, "obs": ob})
     _contracts(ctx, inp, info)
     _buffer_contracts(ctx, inp, info)
     a12, a21 = io["val"]
